@@ -1,5 +1,7 @@
 import BGV.Proofs.Weighted
+import BGV.Proofs.WeightedU
 import BGV.Props.C01
+import BGV.Props.C02
 /-!
 # C05 — weighted graphs keep per-edge weights and the running total consistent
 (`DirectedWeightedGraph`, force off, exact arithmetic)
@@ -315,5 +317,199 @@ example :
       .setEdgeWeight 0 1 3, .setEdgeWeight 1 2 8, .addEdge 2 2 5, .removeSelfLoops, .removeVertexFromEdgeList 0]
     m.total = 8 ∧ m.dGetEdgeWeight 1 2 true = .ok 8 ∧ m.dGetEdgeWeight 0 1 true = .threw .inv
       ∧ m.dGetEdgeWeight 0 1 false = .ok 0 ∧ m.g.edgeNumber = 1 := by decide
+
+/-! ## `UndirectedWeightedGraph` -/
+
+namespace AWU
+/-- what a call denotes on the abstract undirected weighted graph (symmetric) -/
+def step (a : AG Int) : WOp → AG Int
+  | .addEdge i j w => if i < a.n ∧ j < a.n then a.uAdd i j w else a
+  | .setEdgeWeight i j w =>
+      if i < a.n ∧ j < a.n then ⟨a.n, fun x y => if AG.samePair x y i j then some w else a.lab x y⟩ else a
+  | .removeEdge i j => if i < a.n ∧ j < a.n then a.uRemove i j else a
+  | .removeSelfLoops => ⟨a.n, fun x y => if x = y then none else a.lab x y⟩
+  | .removeVertexFromEdgeList v =>
+      if v < a.n then ⟨a.n, fun x y => if x = v ∨ y = v then none else a.lab x y⟩ else a
+  | .clearEdges => ⟨a.n, fun _ _ => none⟩
+  | .resize m => if m < a.n then a else ⟨m, a.lab⟩
+
+def denote (a : AG Int) (ops : List WOp) : AG Int := ops.foldl step a
+
+/-- sum of the weights of the undirected edges present, each unordered pair once -/
+def totalWeight (a : AG Int) : Int :=
+  ((List.range a.n).map (fun i => ((List.range a.n).map (fun j => if i ≤ j then ((a.lab i j).getD 0) else 0)).sum)).sum
+end AWU
+
+namespace WG
+
+theorem uHasEdgeRaw_false_of_oor (g : G Int) (h : UInv g) (i j : Nat) (hr : ¬ (i < g.size ∧ j < g.size)) :
+    g.uHasEdgeRaw i j = false := by
+  rw [h.uHasEdgeRaw_eq]
+  cases he : g.hasEdgeRaw i j with
+  | false => rfl
+  | true =>
+    have hm : j ∈ g.nb i := (mem_nb_iff g i j).2 he
+    have hj := h.base.bound i j hm
+    have hi := h.base.bound j i ((h.sym i j).1 hm)
+    exact absurd ⟨hi, hj⟩ hr
+
+/-- one call of the undirected implementation is the abstract call -/
+theorem absU_uStep (m : WG) (h : WUInv m) (op : WOp) : absU (m.uStep op).g = AWU.step (absU m.g) op := by
+  rw [uStep_g m h op]
+  cases op with
+  | addEdge i j w =>
+    show absU (m.g.uStepM (.addEdge i j w)).1 = _
+    by_cases hr : i < m.g.size ∧ j < m.g.size
+    · rw [G.absU_uStepM m.g h.base (.addEdge i j w) hr]
+      simp [AWU.step, absU, hr, AG.uStep, h.lbl]
+    · simp [AWU.step, absU, hr, G.uStepM, uAddEdge_oor m.g i j w false hr]
+  | setEdgeWeight i j w =>
+    by_cases hr : i < m.g.size ∧ j < m.g.size
+    · have hsome : ((absU m.g).lab i j).isSome = m.g.uHasEdgeRaw i j := by
+        rw [h.base.uHasEdgeRaw_eq]; simp only [absU]; split <;> simp_all
+      by_cases he : m.g.uHasEdgeRaw i j = true
+      · simp only [toSU, he, if_true]
+        rw [G.absU_uStepM m.g h.base (.setEdgeLabel i j w) hr]
+        simp only [AWU.step, AG.uStep, h.lbl]
+        rw [if_pos (show i < (absU m.g).n ∧ j < (absU m.g).n from hr)]
+        apply AG.ext' (by rfl)
+        intro x y
+        rw [he] at hsome
+        simp only [hsome, and_true]
+        rfl
+      · have he' : m.g.uHasEdgeRaw i j = false := by simpa using he
+        simp only [toSU, he', Bool.false_eq_true, if_false]
+        rw [G.absU_uStepM m.g h.base (.addEdge i j w) hr]
+        simp only [AWU.step, AG.uStep, h.lbl, AG.uAdd]
+        rw [if_pos (show i < (absU m.g).n ∧ j < (absU m.g).n from hr)]
+        apply AG.ext' (by rfl)
+        intro x y
+        rw [he'] at hsome
+        simp only [hsome, and_true]
+        rfl
+    · have hraw := uHasEdgeRaw_false_of_oor m.g h.base i j hr
+      simp [AWU.step, absU, hr, toSU, hraw, G.uStepM, uAddEdge_oor m.g i j w false hr]
+  | removeEdge i j =>
+    show absU (m.g.uStepM (.removeEdge i j)).1 = _
+    by_cases hr : i < m.g.size ∧ j < m.g.size
+    · rw [G.absU_uStepM m.g h.base (.removeEdge i j) hr]
+      simp [AWU.step, absU, hr, AG.uStep]
+    · simp [AWU.step, absU, hr, G.uStepM, G.uRemoveEdge, inR_false_of _ _ _ hr]
+  | removeSelfLoops =>
+    show absU (m.g.uStepM .removeSelfLoops).1 = _
+    rw [G.absU_uStepM m.g h.base .removeSelfLoops trivial]; rfl
+  | removeVertexFromEdgeList v =>
+    show absU (m.g.uStepM (.removeVertexFromEdgeList v)).1 = _
+    by_cases hv : v < m.g.size
+    · rw [G.absU_uStepM m.g h.base (.removeVertexFromEdgeList v) hv]
+      simp [AWU.step, absU, hv, AG.uStep]
+    · simp [AWU.step, absU, hv, G.uStepM, G.uRemoveVertex_oor m.g v hv]
+  | clearEdges =>
+    show absU (m.g.uStepM .clearEdges).1 = _
+    rw [G.absU_uStepM m.g h.base .clearEdges trivial]; rfl
+  | resize n =>
+    show absU (m.g.uStepM (.resize n)).1 = _
+    by_cases hn : n < m.g.size
+    · simp [AWU.step, absU, hn, G.uStepM, G.resize]
+    · rw [G.absU_uStepM m.g h.base (.resize n) (show m.g.size ≤ n by omega)]
+      simp [AWU.step, absU, hn, AG.uStep]
+
+theorem absU_uRun (m : WG) (h : WUInv m) (ops : List WOp) : absU (m.uRun ops).g = AWU.denote (absU m.g) ops := by
+  induction ops generalizing m with
+  | nil => rfl
+  | cons op ops ih =>
+    simp only [uRun, AWU.denote, List.foldl_cons]
+    have := ih _ (wuinv_uStep m h op)
+    simp only [uRun, AWU.denote] at this
+    rw [this, absU_uStep m h op]
+
+end WG
+
+/-- **C05 (undirected, invariant).** -/
+theorem C05_und_inv_reachable (n : Nat) (ops : List WOp) : WUInv ((WG.new n).uRun ops) :=
+  wuinv_uRun _ (wuinv_new n) ops
+
+/-- **C05 (undirected, refinement).** After every history the undirected weighted graph stands
+for the symmetric graph the history denotes; the weight of `{i,j}` is the one given at creation
+or by the last `setEdgeWeight` in *either* orientation. -/
+theorem C05_und_refines (n : Nat) (ops : List WOp) :
+    absU ((WG.new n).uRun ops).g = AWU.denote (AG.empty n) ops := by
+  rw [absU_uRun _ (wuinv_new n) ops]
+  congr 1
+  apply AG.ext' (by rfl)
+  intro x y
+  have : (G.new true n : G Int).hasEdgeRaw x y = false := by
+    simp only [hasEdgeRaw]; rw [nb_new]; rfl
+  simp [absU, AG.empty, WG.new, this]
+
+/-- `getEdgeWeight(i,j) = getEdgeWeight(j,i)` = weight of the denoted unordered pair -/
+theorem C05_und_getEdgeWeight (m : WG) (h : WUInv m) (i j : Nat) (hi : i < m.g.size) (hj : j < m.g.size) (t : Bool) :
+    m.uGetEdgeWeight i j t =
+      (match (absU m.g).lab i j with
+        | some w => .ok w
+        | none => if t then .threw .inv else .ok 0) ∧
+    m.uGetEdgeWeight i j t = m.uGetEdgeWeight j i t := by
+  have h1 := C03_und_getEdgeLabel m.g h.base h.lbl i j hi hj t
+  have h2 := C03_und_getEdgeLabel m.g h.base h.lbl j i hj hi t
+  refine ⟨?_, ?_⟩
+  · show m.g.uGetEdgeLabel i j t = _
+    rw [h1]
+    cases (absU m.g).lab i j <;> rfl
+  simp only [uGetEdgeWeight]
+  rw [h1, h2, C02_symmetric m.g h.base i j]
+
+/-- `addEdge` on an existing undirected edge (named in either orientation) changes nothing -/
+theorem C05_und_readd_noop (m : WG) (i j : Nat) (w : Int) (hi : i < m.g.size) (hj : j < m.g.size)
+    (he : m.g.uHasEdgeRaw i j = true) : (m.uAddEdge i j w false).1 = m := by
+  simp [WG.uAddEdge, inR, hi, hj, he]
+
+theorem total_eq_uTotalWeight (m : WG) (h : WUInv m) : m.total = AWU.totalWeight (absU m.g) := by
+  rw [h.tot]
+  have := sumI_eq_sqSumI m.g.size m.g.labels h.keys (by
+    intro e he
+    have hs := (AMap.mem_keys_iff_get? m.g.labels e).1 he
+    obtain ⟨a, b⟩ := e
+    rw [h.base.base.lab h.lbl a b] at hs
+    simp only [Bool.and_eq_true, decide_eq_true_eq] at hs
+    have hm : b ∈ m.g.nb a := (mem_nb_iff m.g a b).2 hs.2
+    exact ⟨h.base.base.bound b a ((h.base.sym a b).1 hm), h.base.base.bound a b hm⟩)
+  rw [this]
+  simp only [sqSumI, AWU.totalWeight, absU]
+  congr 1
+  apply List.map_congr_left
+  intro i _
+  congr 1
+  apply List.map_congr_left
+  intro j _
+  have hlab := h.base.base.lab h.lbl i j
+  by_cases hij : i ≤ j
+  · simp only [hij, if_true, ordered_of_le hij]
+    by_cases he : m.g.hasEdgeRaw i j = true
+    · simp only [he, if_true, Option.getD_some, labD, h.lbl]; rfl
+    · have he' : m.g.hasEdgeRaw i j = false := by simpa using he
+      rw [he'] at hlab
+      simp only [Bool.and_false] at hlab
+      cases hg : m.g.labels.get? (i, j) with
+      | none => simp [he']
+      | some w => rw [hg] at hlab; cases hlab
+  · simp only [hij, if_false]
+    have : decide (i ≤ j) = false := by simpa using hij
+    rw [this] at hlab
+    simp only [Bool.false_and] at hlab
+    cases hg : m.g.labels.get? (i, j) with
+    | none => rfl
+    | some w => rw [hg] at hlab; cases hlab
+
+/-- **C05 (undirected).** `getTotalWeight()` is the sum of the weights of the undirected edges
+present, each counted once, after every history. -/
+theorem C05_und_total (n : Nat) (ops : List WOp) :
+    ((WG.new n).uRun ops).total = AWU.totalWeight (AWU.denote (AG.empty n) ops) := by
+  rw [total_eq_uTotalWeight _ (C05_und_inv_reachable n ops), C05_und_refines]
+
+example :
+    let m := (WG.new 3).uRun [.addEdge 1 0 (-6), .addEdge 0 1 20, .addEdge 1 1 2, .addEdge 2 0 10,
+      .setEdgeWeight 0 1 3, .setEdgeWeight 2 1 8, .removeEdge 0 2, .removeSelfLoops]
+    m.total = 11 ∧ m.uGetEdgeWeight 1 2 true = .ok 8 ∧ m.uGetEdgeWeight 1 0 true = .ok 3
+      ∧ m.uGetEdgeWeight 0 2 true = .threw .inv ∧ m.g.edgeNumber = 2 := by decide
 
 end BGV
